@@ -308,7 +308,9 @@ theorem httpRun_plain : ∀ (ws : List Bytes) (last : Bytes) (st : HttpSt), st.h
 
 /-- what an RFC 7230 client makes of a head built from CR-free lines (`l0` is the status line) -/
 theorem deHttp_lines (l0 : Bytes) (rest0 extras : List Bytes)
-    (hhttp : l0.take 5 = Spec.sHttpSlash) (hok : ∀ l ∈ l0 :: (rest0 ++ extras), LineOk l) (enc : Bytes) :
+    (hhttp : l0.take 5 = Spec.sHttpSlash) (hok : ∀ l ∈ l0 :: (rest0 ++ extras), LineOk l) (enc : Bytes)
+    (hver : Spec.framingOf (Spec.fieldValues Spec.sTransferEncoding (rest0 ++ extras))
+                           (Spec.fieldValues Spec.sContentLength (rest0 ++ extras)) = some .chunked → l0.take 8 = Spec.sHttp11) :
     Spec.deHttp (joinLines (l0 :: (rest0 ++ extras)) ++ [13, 10] ++ enc) =
       Spec.deBody (Spec.framingOf (Spec.fieldValues Spec.sTransferEncoding (rest0 ++ extras))
                                   (Spec.fieldValues Spec.sContentLength (rest0 ++ extras)))
@@ -334,6 +336,18 @@ theorem deHttp_lines (l0 : Bytes) (rest0 extras : List Bytes)
   unfold Spec.deHttp
   rw [splitHead_append _ enc hhead]
   simp only [h5, ne_eq, not_true_eq_false, if_false, hfr]
+  by_cases hch : Spec.framingOf (Spec.fieldValues Spec.sTransferEncoding (rest0 ++ extras))
+      (Spec.fieldValues Spec.sContentLength (rest0 ++ extras)) = some .chunked
+  · have h8 := hver hch
+    have hl8 : 8 ≤ l0.length := by
+      have := congrArg List.length h8
+      simp only [List.length_take, Spec.sHttp11, List.length_cons, List.length_nil] at this
+      omega
+    have : (joinLines (l0 :: (rest0 ++ extras)) ++ [13, 10]).take 8 = Spec.sHttp11 := by
+      rw [joinLines_cons, List.append_assoc, List.append_assoc, List.take_append_of_le_length hl8]
+      exact h8
+    simp [this]
+  · simp [hch]
 
 end Cppcms.C03
 
@@ -364,6 +378,8 @@ structure HttpReady (st : HttpSt) (l0 : Bytes) (rest0 : List Bytes) : Prop where
   cl : (st.contentLength = none ∧ Spec.fieldValues Spec.sContentLength rest0 = []) ∨
        (∃ n v, st.contentLength = some n ∧ Spec.fieldValues Spec.sContentLength rest0 = [v] ∧ Spec.parseDecNum v = some n)
   written0 : st.written = 0
+  /-- the status line carries the version `set_response_headers` chose from `is_http_11_` -/
+  version : st.isHttp11 = true → l0.take 8 = Spec.sHttp11
 
 theorem joinLines_ne_nil (l0 : Bytes) (rest0 : List Bytes) : (joinLines (l0 :: rest0)).isEmpty = false := by
   rw [joinLines_cons]; simp
@@ -477,7 +493,6 @@ theorem http_roundtrip_lemma (st : HttpSt) (l0 : Bytes) (rest0 : List Bytes) (h 
           · subst hl; exact serverLine_ok
           · subst hl; exact clLine_ok _
           · subst hl; exact connLine_ok ka)
-        rw [deHttp_lines l0 rest0 _ h.status hok last]
         have f1 : Spec.fieldValues Spec.sTransferEncoding (rest0 ++ [serverLine, clLine last.length, connLine ka]) = [] := by
           have : [serverLine, clLine last.length, connLine ka] = [serverLine] ++ [clLine last.length] ++ [connLine ka] := rfl
           rw [this]
@@ -486,6 +501,9 @@ theorem http_roundtrip_lemma (st : HttpSt) (l0 : Bytes) (rest0 : List Bytes) (h 
           have : [serverLine, clLine last.length, connLine ka] = [serverLine] ++ [clLine last.length] ++ [connLine ka] := rfl
           rw [this]
           simp only [fieldValues_append, hcl, fv_server.2, (fv_cl last.length).2, (fv_conn ka).2, List.nil_append, List.append_nil]
+        have hverX : Spec.framingOf (Spec.fieldValues Spec.sTransferEncoding (rest0 ++ [serverLine, clLine last.length, connLine ka])) (Spec.fieldValues Spec.sContentLength (rest0 ++ [serverLine, clLine last.length, connLine ka])) = some .chunked → l0.take 8 = Spec.sHttp11 := by
+          rw [f1, f2]; simp [Spec.framingOf]
+        rw [deHttp_lines l0 rest0 _ h.status hok last hverX]
         rw [f1, f2]
         simp [Spec.framingOf, parseDecNum_decDigits, Spec.deBody]
     · have htot := hlen n hc
@@ -501,7 +519,6 @@ theorem http_roundtrip_lemma (st : HttpSt) (l0 : Bytes) (rest0 : List Bytes) (h 
           rcases hl with hl | hl
           · subst hl; exact serverLine_ok
           · subst hl; exact connLine_ok ka)
-        rw [deHttp_lines l0 rest0 _ h.status hok last]
         have f1 : Spec.fieldValues Spec.sTransferEncoding (rest0 ++ [serverLine, connLine ka]) = [] := by
           have : [serverLine, connLine ka] = [serverLine] ++ [connLine ka] := rfl
           rw [this]
@@ -510,6 +527,9 @@ theorem http_roundtrip_lemma (st : HttpSt) (l0 : Bytes) (rest0 : List Bytes) (h 
           have : [serverLine, connLine ka] = [serverLine] ++ [connLine ka] := rfl
           rw [this]
           simp only [fieldValues_append, hcl, fv_server.2, (fv_conn ka).2, List.append_nil]
+        have hverX : Spec.framingOf (Spec.fieldValues Spec.sTransferEncoding (rest0 ++ [serverLine, connLine ka])) (Spec.fieldValues Spec.sContentLength (rest0 ++ [serverLine, connLine ka])) = some .chunked → l0.take 8 = Spec.sHttp11 := by
+          rw [f1, f2]; simp [Spec.framingOf]
+        rw [deHttp_lines l0 rest0 _ h.status hok last hverX]
         rw [f1, f2]
         simp [Spec.framingOf, hpv, Spec.deBody, htot]
   | cons w ws' =>
@@ -538,7 +558,6 @@ theorem http_roundtrip_lemma (st : HttpSt) (l0 : Bytes) (rest0 : List Bytes) (h 
             · subst hl; exact serverLine_ok
             · subst hl; exact connLine_ok true
             · subst hl; exact teLine_ok
-          rw [deHttp_lines l0 rest0 _ h.status hok]
           have f1 : Spec.fieldValues Spec.sTransferEncoding (rest0 ++ [serverLine, connLine true, teLine]) = [Spec.sChunked] := by
             have : [serverLine, connLine true, teLine] = [serverLine] ++ [connLine true] ++ [teLine] := rfl
             rw [this]
@@ -547,6 +566,9 @@ theorem http_roundtrip_lemma (st : HttpSt) (l0 : Bytes) (rest0 : List Bytes) (h 
             have : [serverLine, connLine true, teLine] = [serverLine] ++ [connLine true] ++ [teLine] := rfl
             rw [this]
             simp only [fieldValues_append, hcl, fv_server.2, (fv_conn true).2, fv_te.2, List.nil_append]
+          have hverX : Spec.framingOf (Spec.fieldValues Spec.sTransferEncoding (rest0 ++ [serverLine, connLine true, teLine])) (Spec.fieldValues Spec.sContentLength (rest0 ++ [serverLine, connLine true, teLine])) = some .chunked → l0.take 8 = Spec.sHttp11 := by
+            rw [f1, f2]; intro _; exact h.version (by have := hka; simp [Gen.keepAliveCond] at this; exact this.2)
+          rw [deHttp_lines l0 rest0 _ h.status hok _ hverX]
           rw [f1, f2]
           have := deChunked_body (w :: ws') last []
           simp only [List.append_nil] at this
@@ -567,7 +589,6 @@ theorem http_roundtrip_lemma (st : HttpSt) (l0 : Bytes) (rest0 : List Bytes) (h 
             · exact hok0 l (by simp [hl])
             · subst hl; exact serverLine_ok
             · subst hl; exact connLine_ok false
-          rw [deHttp_lines l0 rest0 _ h.status hok]
           have f1 : Spec.fieldValues Spec.sTransferEncoding (rest0 ++ [serverLine, connLine false]) = [] := by
             have : [serverLine, connLine false] = [serverLine] ++ [connLine false] := rfl
             rw [this]
@@ -576,6 +597,9 @@ theorem http_roundtrip_lemma (st : HttpSt) (l0 : Bytes) (rest0 : List Bytes) (h 
             have : [serverLine, connLine false] = [serverLine] ++ [connLine false] := rfl
             rw [this]
             simp only [fieldValues_append, hcl, fv_server.2, (fv_conn false).2, List.nil_append]
+          have hverX : Spec.framingOf (Spec.fieldValues Spec.sTransferEncoding (rest0 ++ [serverLine, connLine false])) (Spec.fieldValues Spec.sContentLength (rest0 ++ [serverLine, connLine false])) = some .chunked → l0.take 8 = Spec.sHttp11 := by
+            rw [f1, f2]; simp [Spec.framingOf]
+          rw [deHttp_lines l0 rest0 _ h.status hok _ hverX]
           rw [f1, f2]
           simp [Spec.framingOf, Spec.deBody, List.append_assoc]
     · -- the application announced n: never chunked, body passed through
@@ -598,7 +622,6 @@ theorem http_roundtrip_lemma (st : HttpSt) (l0 : Bytes) (rest0 : List Bytes) (h 
           · exact hok0 l (by simp [hl])
           · subst hl; exact serverLine_ok
           · subst hl; exact connLine_ok ka
-        rw [deHttp_lines l0 rest0 _ h.status hok]
         have f1 : Spec.fieldValues Spec.sTransferEncoding (rest0 ++ [serverLine, connLine ka]) = [] := by
           have : [serverLine, connLine ka] = [serverLine] ++ [connLine ka] := rfl
           rw [this]
@@ -607,6 +630,9 @@ theorem http_roundtrip_lemma (st : HttpSt) (l0 : Bytes) (rest0 : List Bytes) (h 
           have : [serverLine, connLine ka] = [serverLine] ++ [connLine ka] := rfl
           rw [this]
           simp only [fieldValues_append, hcl, fv_server.2, (fv_conn ka).2, List.append_nil]
+        have hverX : Spec.framingOf (Spec.fieldValues Spec.sTransferEncoding (rest0 ++ [serverLine, connLine ka])) (Spec.fieldValues Spec.sContentLength (rest0 ++ [serverLine, connLine ka])) = some .chunked → l0.take 8 = Spec.sHttp11 := by
+          rw [f1, f2]; simp [Spec.framingOf]
+        rw [deHttp_lines l0 rest0 _ h.status hok _ hverX]
         rw [f1, f2]
         have hl2 : (w ++ (ws'.flatten ++ last)).length = n := by simp only [List.length_append]; omega
         simp [Spec.framingOf, hpv, Spec.deBody, hl2, List.append_assoc]
